@@ -134,6 +134,8 @@ class Params:
             sym.current().assume(t)
         else:
             self.assumed.append(cond)
+            if isinstance(cond, z3.ExprRef):
+                cond = z3.is_true(z3.simplify(cond))  # a ground formula over the concrete parameter values
             if not cond:
                 raise OutsidePrecondition()
 
